@@ -16,11 +16,12 @@ import (
 // store by library code into an operand's coordinates faults at the storing
 // instruction (and, with debug.SetPanicOnFault, becomes a recoverable panic).
 type region struct {
-	mem     []byte
-	floats  []float64
-	used    int
-	frozen  bool
-	heapOut int // allocations that did not fit and went to the Go heap
+	mem       []byte
+	floats    []float64
+	used      int
+	frozen    bool
+	revisions int
+	heapOut   int // allocations that did not fit and went to the Go heap
 }
 
 func newRegion(nfloats int) (*region, error) {
@@ -81,21 +82,22 @@ func (r *region) contains(addr uintptr) bool {
 
 // pool is the set of operands shared by all tasks of a run.
 type pool struct {
-	lat     gen.Lattice
-	reg     *region
-	geoms   []geom.Geometry
-	seqs    []geom.Sequence
-	envs    []geom.Envelope
-	trees   []*rtree.RTree
-	items   [][]rtree.BulkItem // what each tree was loaded from (model copy)
-	bufs    []sharedBuf        // encoded documents shared by all tasks (in the frozen region)
-	pubB    []uint64
-	pubG    []string // digests at publication
-	pubS    []string
-	pubE    []string
-	pubT    []uint64
-	frozen  bool
-	general bool
+	lat       gen.Lattice
+	reg       *region
+	geoms     []geom.Geometry
+	seqs      []geom.Sequence
+	envs      []geom.Envelope
+	trees     []*rtree.RTree
+	items     [][]rtree.BulkItem // what each tree was loaded from (model copy)
+	bufs      []sharedBuf        // encoded documents shared by all tasks (in the frozen region)
+	pubB      []uint64
+	pubG      []string // digests at publication
+	pubS      []string
+	pubE      []string
+	pubT      []uint64
+	frozen    bool
+	revisions int
+	general   bool
 }
 
 // sharedBuf is an encoded document that several tasks decode concurrently
@@ -150,6 +152,17 @@ func buildPool(m *vs.Stream, freeze bool) (*pool, error) {
 		}
 		if attempt >= 2 {
 			general = false // give up: fall back to the lattice class
+		}
+	}
+	// a "revision" of one operand: same vertex count, same first and last
+	// segments, one interior vertex moved (two versions of a track or parcel)
+	if m.Intn(3, "pool/revision") == 2 {
+		for _, g := range p.geoms {
+			if r, ok := revise(m, p, g); ok {
+				p.geoms = append(p.geoms, r)
+				p.revisions++
+				break
+			}
 		}
 	}
 	for _, g := range p.geoms {
@@ -290,4 +303,53 @@ func clipS(s string, n int) string {
 		return s[:n] + "…"
 	}
 	return s
+}
+
+// revise returns a valid geometry that differs from g in exactly one interior
+// vertex of its (first) line or exterior ring.
+func revise(m *vs.Stream, p *pool, g geom.Geometry) (geom.Geometry, bool) {
+	var seq geom.Sequence
+	switch {
+	case g.IsLineString():
+		seq = g.MustAsLineString().Coordinates()
+	case g.IsPolygon() && !g.IsEmpty():
+		seq = g.MustAsPolygon().ExteriorRing().Coordinates()
+	default:
+		return geom.Geometry{}, false
+	}
+	n := seq.Length()
+	if n < 6 {
+		return geom.Geometry{}, false
+	}
+	d := seq.CoordinatesType().Dimension()
+	fs := p.reg.alloc(n * d)
+	for i := 0; i < n; i++ {
+		c := seq.Get(i)
+		fs[i*d], fs[i*d+1] = c.X, c.Y
+		if d > 2 {
+			fs[i*d+2] = c.Z
+			if seq.CoordinatesType() == geom.DimXYM {
+				fs[i*d+2] = c.M
+			}
+		}
+		if d > 3 {
+			fs[i*d+3] = c.M
+		}
+	}
+	k := 2 + m.Intn(n-4, "rev/k")
+	fs[k*d] += p.lat.Unit * float64(1+m.Intn(2, "rev/dx"))
+	fs[k*d+1] -= p.lat.Unit * float64(m.Intn(2, "rev/dy"))
+	ns := geom.NewSequence(fs, seq.CoordinatesType())
+	var r geom.Geometry
+	if g.IsLineString() {
+		r = geom.NewLineString(ns).AsGeometry()
+	} else {
+		rings := g.MustAsPolygon().DumpRings()
+		rings[0] = geom.NewLineString(ns)
+		r = geom.NewPolygon(rings).AsGeometry()
+	}
+	if r.Validate() != nil {
+		return geom.Geometry{}, false
+	}
+	return r, true
 }
